@@ -28,14 +28,16 @@ TECHNIQUE = ('bounded-exhaustive enumeration of configurations x every listed '
              'with build of the original by canonical form')
 RULE = ('every DAG shape over {Config with string defaults, Config with a '
         'mutable shared default object, Config with positional-only default, '
-        'dataclass Config with default_factory, Partial, TaggedValue (with / '
+        'dataclass Config with default_factory, Partial, a user-registered '
+        'container type, TaggedValue (with / '
         'without value), list, tuple of literals, dict} up to N nodes, leaves '
         '{plain, equal to a default, equal to the mutable default}, with / '
         'without argument tags x {materialize_defaults, with_defaults_trimmed '
         '(both flags), unintern_tuples_of_literals, replace_unconfigured_'
         'partials_with_callables, clear_argument_history, materialize_tags '
         '(None / each tag subset / clear_field_tags)}; auto_config.inline on '
-        'every auto_config node of fixture programs; convert_dataclasses_to_'
+        'every subset of auto_config nodes of fixture programs (with and '
+        'without arguments, the same helper called several times); convert_dataclasses_to_'
         'configs on every dataclass instance graph of a small grammar')
 ASSUMPTIONS = [
     'builds are compared structurally (values, types, sharing of mutable '
@@ -93,6 +95,7 @@ def kinds():
       'list2': K('list2', 2, False, list),
       'tuple2': K('tuple2', 2, False, tuple),
       'dict1': K('dict1', 1, False, lambda v: {'k': v[0]}),
+      'tmp': K('tmp', 2, False, lambda v: N.Tmp(*v)),
       'tv': K('tv', 1, True, lambda v: (N.TagA.new() if v[0] is shapes.UNSET
                                         else N.TagA.new(v[0])), True),
   }
@@ -114,12 +117,14 @@ def bounds(tier):
         [['pos'], 1, 4],
         [['pos', 'list2'], 2, 2],
         [['mut2', 'list2', 'tv'], 3, 1],
+        [['tmp', 'cfg', 'list2'], 3, 1],
     ], dc_depth=2)
   return dict(families=[
       [FULL + ['dict1', 'parkw'], 2, 3],
       [['pos', 'cfg', 'list2'], 2, 4],
       [['mut2', 'par', 'list2', 'tv'], 3, 3],
       [['cfg', 'mut', 'par', 'list2'], 3, 3],
+      [['tmp', 'cfg', 'par', 'list2'], 3, 2],
   ], dc_depth=3)
 
 
@@ -322,7 +327,8 @@ def check_case(shape, tagv, res, only=None):
 def inline_cases():
   for a in ('v', ['lst'], 1):
     for b in ('ob', 'v'):
-      yield a, b
+      yield acfg.outer, (a, b)
+  yield acfg.outer2, ()
 
 
 def auto_config_nodes(root):
@@ -357,16 +363,16 @@ def follow(root, path):
 
 
 def run_inline(res):
-  for a, b in inline_cases():
-    cfg = acfg.outer.as_buildable(a, b)
+  for prog, args in inline_cases():
+    cfg = prog.as_buildable(*args)
     base = build_canon(cfg)
     paths = auto_config_nodes(cfg)
     # every non-empty subset of auto_config nodes, inlined in path order
     for r in range(1, len(paths) + 1):
       for subset in itertools.combinations(paths, r):
-        c = acfg.outer.as_buildable(a, b)
+        c = prog.as_buildable(*args)
         case = {'inline': [list(map(list, p)) for p in subset],
-                'args': [a, b]}
+                'program': prog.__name__, 'args': list(args)}
         res.states += 1
         res.nontrivial += 1
         try:
@@ -383,7 +389,7 @@ def run_inline(res):
         if got != base:
           res.violation('C20/build-differs/inline',
                         f'{case}: {base} vs {got}', case)
-  res.sample({'inline_program': 'vfx.acfg.outer', 'nodes': len(paths)})
+  res.sample({'inline_programs': 'vfx.acfg.outer, outer2', 'nodes': len(paths)})
 
 
 # ------------------------------------------------------------ dataclasses
